@@ -486,3 +486,20 @@ func TestKnownFinding_F12(t *testing.T) {
 		t.Errorf("supplied member not replaced: content=%v", m["content"])
 	}
 }
+
+// F18 (C02): a recipient that cannot be fetched must be skipped without failing the delivery. resolveActors
+// keeps the fetch error of the LAST recipient in its named result and returns it.
+func TestKnownFinding_F18(t *testing.T) {
+	app, sea, _ := kfSetup()
+	app.tp.docs["https://p.example/good"] = `{"@context":"https://www.w3.org/ns/activitystreams","type":"Person","id":"https://p.example/good","inbox":"https://p.example/good/inbox"}`
+	// https://p.example/gone is not served: Dereference fails
+	app.db.values["https://local.example/actor"] = kfMustType(t, `{"@context":"https://www.w3.org/ns/activitystreams","type":"Person","id":"https://local.example/actor","inbox":"https://local.example/actor/inbox"}`)
+	note := kfMustType(t, `{"@context":"https://www.w3.org/ns/activitystreams","type":"Create","id":"https://local.example/c/1","actor":"https://local.example/actor","to":["https://p.example/good","https://p.example/gone"],"object":{"type":"Note","id":"https://local.example/n/9","content":"x"}}`).(Activity)
+	err := sea.Deliver(context.Background(), kfURL("https://local.example/actor/outbox"), note)
+	if err != nil {
+		t.Fatalf("delivery failed because one recipient could not be fetched: %v", err)
+	}
+	if len(app.tp.delivered) != 1 || len(app.tp.delivered[0]) != 1 || app.tp.delivered[0][0] != "https://p.example/good/inbox" {
+		t.Fatalf("delivered to %v, want exactly [[https://p.example/good/inbox]]", app.tp.delivered)
+	}
+}
